@@ -956,6 +956,15 @@ func (fc *FnCtx) assumeInvariants(li *LoopInfo, env *Env) {
 	}
 	if fr, ok := fc.loopFrame(li, env.st); ok {
 		fc.assume(fr)
+		// `modifies nothing`: the same fact, ground, for the objects of the parameters
+		items := fc.c.Modifies
+		if li.lc != nil && li.lc.HasMod {
+			items = li.lc.Modifies
+		}
+		if len(items) == 0 {
+			fc.groundKeep(fc.entry, env.st, nil)
+		}
+		_ = items
 	}
 	if fc.c != nil {
 		for _, pz := range fc.c.Preserves {
